@@ -9,6 +9,11 @@
 (*   knd[i]   "e" element | "c" comment | "p" processing instruction       *)
 (*   txt[i]   element.text is not None          (elements only)            *)
 (*   tl[i]    item.tail is not None             (never for item 1)         *)
+(*   etx[i]   element.text is the EMPTY string ''   (implies txt[i])       *)
+(*   etl[i]   item.tail is the EMPTY string ''      (implies tl[i])        *)
+(*            i.e. the text / tail alphabet is {None, '', 't'}: only       *)
+(*            programs, never parsers, produce '' chunks; the property     *)
+(*            counts every non-None chunk, so '' is a text node too        *)
 (*   nat[i]   number of attributes 0..2         (elements only)            *)
 (*   decl[i]  set of prefixes DECLARED on the element ("" = default ns);   *)
 (*            only lxml retains declarations, xml.etree drops them         *)
@@ -22,15 +27,15 @@
 (*                                                                         *)
 (* Implementation-defined points kept OUT of the universe (module header   *)
 (* of engine/props/c02.py lists them too): xmlns="" undeclarations (lxml   *)
-(* and libxml2 report a (None,'') binding), empty-string text chunks,      *)
+(* and libxml2 report a (None,'') binding),                                *)
 (* the relative order of the namespace nodes / of the attributes of one    *)
 (* element (compared as sets per element, positions must still be unique   *)
 (* and inside the element's block).                                        *)
 (***************************************************************************)
 EXTENDS Naturals, Sequences, FiniteSets
 
-VARIABLES variant, rootarg, fragment, nsarg, n, par, knd, txt, tl, nat, decl, pre, post
-ivars == <<variant, rootarg, fragment, nsarg, n, par, knd, txt, tl, nat, decl, pre, post>>
+VARIABLES variant, rootarg, fragment, nsarg, n, par, knd, txt, tl, etx, etl, nat, decl, pre, post
+ivars == <<variant, rootarg, fragment, nsarg, n, par, knd, txt, tl, etx, etl, nat, decl, pre, post>>
 
 ---------------------------------------------------------------------------
 (* The universe of inputs *)
@@ -44,7 +49,7 @@ ValidParents(m) ==
       /\ \A i \in 2..m : p[i] >= 1 /\ p[i] < i
       /\ \A i \in 2..m : p[i] = i-1 \/ p[i] \in AncP(p, i-1)}
 
-InputInit(MaxItems, ItemKinds, TextOpts, TailOpts, AttrCounts, DeclOpts,
+InputInit(MaxItems, ItemKinds, TextOpts, TailOpts, EmptyOpts, AttrCounts, DeclOpts,
           Variants, RootArgs, Fragments, NsArgs, SibSeqs) ==
   /\ variant \in Variants
   /\ rootarg \in RootArgs
@@ -58,6 +63,8 @@ InputInit(MaxItems, ItemKinds, TextOpts, TailOpts, AttrCounts, DeclOpts,
                 /\ \A i \in 2..n : k[par[i]] = "e"}
   /\ txt \in {t \in [1..n -> BOOLEAN] : \A i \in 1..n : IF knd[i] = "e" THEN t[i] \in TextOpts ELSE t[i] = FALSE}
   /\ tl  \in {t \in [1..n -> BOOLEAN] : \A i \in 1..n : IF i = 1 THEN t[i] = FALSE ELSE t[i] \in TailOpts}
+  /\ etx \in {t \in [1..n -> BOOLEAN] : \A i \in 1..n : IF txt[i] THEN t[i] \in EmptyOpts ELSE t[i] = FALSE}
+  /\ etl \in {t \in [1..n -> BOOLEAN] : \A i \in 1..n : IF tl[i]  THEN t[i] \in EmptyOpts ELSE t[i] = FALSE}
   /\ nat \in {a \in [1..n -> 0..2] : \A i \in 1..n : IF knd[i] = "e" THEN a[i] \in AttrCounts ELSE a[i] = 0}
   /\ decl \in {d \in [1..n -> DeclOpts \cup {{}}] :
                  \A i \in 1..n : IF knd[i] = "e" /\ variant = "lxml" THEN d[i] \in DeclOpts ELSE d[i] = {}}
@@ -68,6 +75,8 @@ InputInit(MaxItems, ItemKinds, TextOpts, TailOpts, AttrCounts, DeclOpts,
 (* Reading the input *)
 
 Items == 1..n
+TextVal(i) == IF ~txt[i] THEN "none" ELSE IF etx[i] THEN "empty" ELSE "text"    \* None | '' | 't'
+TailVal(i) == IF ~tl[i]  THEN "none" ELSE IF etl[i] THEN "empty" ELSE "text"
 KidSet(i) == {j \in Items : par[j] = i}
 
 RECURSIVE AscSeq(_)      \* a finite set of naturals as ascending sequence
@@ -120,8 +129,8 @@ SibD(kind, j) == D(IF kind = "c" THEN "sc" ELSE "sp", 0, j)
 
 NsBlock(i)   == [j \in 1..NsCount(i) |-> D("ns", i, j)]
 AttrBlock(i) == [j \in 1..nat[i]     |-> D("a", i, j)]
-TextOf(i)    == IF txt[i] THEN <<D("t", i, 0)>> ELSE <<>>
-TailOf(i)    == IF tl[i]  THEN <<D("l", i, 0)>> ELSE <<>>
+TextOf(i)    == IF TextVal(i) # "none" THEN <<D("t", i, 0)>> ELSE <<>>     \* one text node per non-None chunk,
+TailOf(i)    == IF TailVal(i) # "none" THEN <<D("l", i, 0)>> ELSE <<>>     \* the empty string included
 
 (* document order: the element, its namespace nodes, its attributes, then  *)
 (* its children (text, child subtrees each followed by its tail)           *)
